@@ -432,13 +432,48 @@ class _Decoy:
             pass
 
 
+class _JumpClock:
+    """While a reader or queue is being fed, the clocks of the `time` module leap an hour ahead at every line: what
+    is delivered for a sequence of lines does not depend on how long the lines took to arrive."""
+
+    NAMES = ('monotonic', 'time', 'perf_counter', 'monotonic_ns', 'time_ns')
+
+    def __init__(self):
+        import time as _t
+        self.t = _t
+        self.real = {n: getattr(_t, n) for n in self.NAMES}
+        self.offset = 0.0
+
+    def __enter__(self):
+        for n in self.NAMES:
+            real = self.real[n]
+            if n.endswith('_ns'):
+                setattr(self.t, n, lambda real=real: real() + int(self.offset * 1e9))
+            else:
+                setattr(self.t, n, lambda real=real: real() + self.offset)
+        return self
+
+    def leap(self):
+        self.offset += 3600.0
+
+    def __exit__(self, *a):
+        for n in self.NAMES:
+            setattr(self.t, n, self.real[n])
+
+
 def run_stream(fe, tbq, lines, indexed=True):
+    with _JumpClock() as clock:
+        return _run_stream(fe, tbq, lines, indexed, clock)
+
+
+def _run_stream(fe, tbq, lines, indexed, clock):
     counter = [0]
     decoy = _Decoy(fe, tbq, lines)
 
     def gen():
         for l in lines:
             decoy.tick()
+            clock.leap()
             counter[0] += 1
             yield l
 
@@ -679,6 +714,26 @@ def _two_passes(fe, lines, ref_d):
             if got != ref_d:
                 return ('READERS-DIFFER source ran dry after line %d (a wrapper) and continued: %d deliveries, in one '
                         'pass %d (or other wrappers)' % (p, len(got), len(ref_d)))
+            # ... and the same, the second pass left after its first delivery (which carries the inherited wrapper) and
+            # a third pass for the rest: the wrapper is not attached a second time
+            feed = _Feed()
+            feed.more(lines[:p])
+            try:
+                rd = cls(feed)
+                got1 = [show_sentence(m) for m in rd]
+                feed.more(lines[p:])
+                got2 = []
+                for m in rd:
+                    got2.append(show_sentence(m))
+                    break
+                consumed = feed.taken
+                got3 = [show_sentence(m) for m in rd]
+                fresh = [show_sentence(m) for m in cls(list(lines[consumed:]))]
+            except Exception as e:  # noqa
+                return 'READERS-DIFFER reader over a polled source (three passes) raised ' + err(e)
+            if got1 + got2 != ref_d[:len(got1) + len(got2)] or got3 != fresh:
+                return ('READERS-DIFFER polled source, second pass left after its first delivery: the third pass delivers '
+                        '%d sentences, a fresh reader over the remaining lines %d (or other wrappers)' % (len(got3), len(fresh)))
             break
     return None
 
@@ -777,7 +832,15 @@ def sock_read(chunks):
     out = {}
     for cls in SOCKET_CLASSES:
         try:
-            out[cls.__name__] = '[' + ','.join(hx(l) for l in make_socket_stream(chunks, None, cls).read()) + ']'
+            # a second connection of the same kind is read alternately with the observed one (other bytes, cut in the
+            # middle of its lines): two connections share nothing
+            other = make_socket_stream([b'!AIVDM,1,1,,B,1other', b'connection,0*00\r\n!AIVDM,1,1,', b',A,xx,0*11\n!x'] * 3,
+                                       None, cls).read()
+            got = []
+            for l in make_socket_stream(chunks, None, cls).read():
+                got.append(l)
+                next(other, None)
+            out[cls.__name__] = '[' + ','.join(hx(l) for l in got) + ']'
         except Exception as e:  # noqa
             out[cls.__name__] = err(e)
     return _family(out)
@@ -924,8 +987,27 @@ def run_tracker(ordered, ttl, ops):
     # must be called once per event)
     calls = [0]
 
+    inside = []
+
     def any_event(t):
         calls[0] += 1
+        # "at every moment": what the tracker answers while it is delivering an event (read-only questions)
+        try:
+            now_tracks = tr.tracks
+            ids = [x.mmsi for x in now_tracks]
+            if len(set(ids)) != len(ids):
+                inside.append('two-tracks-for-one-mmsi-inside-a-callback')
+            k = min(2, len(now_tracks))
+            latest = tr.n_latest_tracks(k)
+            lus = {x.mmsi: x.last_updated for x in now_tracks}
+            left = [m for m in lus if m not in [x.mmsi for x in latest]]
+            if len(latest) != k or len({x.mmsi for x in latest}) != k or any(x.mmsi not in lus for x in latest) or \
+                    (latest and left and max(lus[m] for m in left) > min(lus[x.mmsi] for x in latest)):
+                inside.append('n_latest_tracks-inside-a-callback-leaves-out-a-newer-track')
+            if tr.get_track(t.mmsi) is not None and t.mmsi not in ids:
+                inside.append('get_track-and-tracks-disagree-inside-a-callback')
+        except Exception as e:  # noqa
+            inside.append('query-inside-a-callback-raised-' + type(e).__name__)
 
     for ev in TR.AISTrackEvent:
         tr.register_callback(ev, any_event)
@@ -958,7 +1040,10 @@ def run_tracker(ordered, ttl, ops):
         delta = '~%d,%d,%d,%d' % (third['C'] - seen['C'], third['U'] - seen['U'], third['D'] - seen['D'],
                                    calls[0] - seen['any'])
         seen.update(C=third['C'], U=third['U'], D=third['D'], any=calls[0])
-        if calls[0] != total[0]:
+        if inside:
+            evs.append(('OBSERVER-CALLED-AND-SAW-%s-' % inside[0], 0))
+            del inside[:]
+        elif calls[0] != total[0]:
             evs.append(('OBSERVER-CALLED-%d-TIMES-FOR-%d-EVENTS-' % (calls[0], total[0]), 0))
         elif third != third_exp:
             evs.append(('OBSERVER-CALLED-%s-EXPECTED-%s-' % (sorted(third.items()), sorted(third_exp.items())), 0))
@@ -1049,7 +1134,33 @@ def make_pred(spec):
     raise ValueError(spec)
 
 
-def make_filter(s):
+def make_filter(s, reconfigure=False):
+    """`reconfigure`: the filter is built with other parameters and then given the wanted ones through its public
+    attributes (a long-lived filter that is re-targeted)"""
+    f = _make_filter(s)
+    if not reconfigure:
+        return f
+    if isinstance(f, FL.MessageTypeFilter):
+        g = FL.MessageTypeFilter(1, 2, 3, 27)
+        g.types = f.types
+    elif isinstance(f, FL.NoneFilter):
+        g = FL.NoneFilter('mmsi', 'no_such_attribute')
+        g.attrs = f.attrs
+    elif isinstance(f, FL.DistanceFilter):
+        g = FL.DistanceFilter((0.0, 0.0), 1.0)
+        g.ref_lat_lon, g.distance_km = f.ref_lat_lon, f.distance_km
+    elif isinstance(f, FL.GridFilter):
+        g = FL.GridFilter(-1.0, -1.0, 1.0, 1.0)
+        g.lat_min, g.lon_min, g.lat_max, g.lon_max = f.lat_min, f.lon_min, f.lat_max, f.lon_max
+    elif isinstance(f, FL.AttributeFilter):
+        g = FL.AttributeFilter(lambda m: False)
+        g.ff = f.ff
+    else:
+        g = f
+    return g
+
+
+def _make_filter(s):
     p = s.split(':')
     if p[0] == 'A':
         return FL.AttributeFilter(make_pred(p[1:]))
@@ -1105,6 +1216,11 @@ def run_chain(fspec, lines):
     again = _try(lambda: '[' + ','.join(str(IDX[id(m)]) for m in chain.filter(list(elems))) + ']')
     if again != res:
         return 'READERS-DIFFER chain-first-stream=%s same-chain-second-stream=%s' % (res, again)
+    # filters that were built for something else and then re-targeted through their public attributes
+    rec = _try(lambda: '[' + ','.join(str(IDX[id(m)]) for m in FL.FilterChain(
+        [make_filter(x, reconfigure=True) for x in fspec.split('+')]).filter(list(elems))) + ']')
+    if rec != res:
+        return 'READERS-DIFFER chain-of-fresh-filters=%s chain-of-reconfigured-filters=%s' % (res, rec)
     # the same chain (fresh filter objects) over the sentence objects a reader delivers
     try:
         sents = []
@@ -1194,6 +1310,28 @@ def step2(line):
             for term in (b'\r\n', b'\n'):
                 fam['AISSentence.from_bytes(line + %r).decode()' % term] = _try(
                     lambda: canon_msg(M.AISSentence.from_bytes(args[0] + term).decode()))
+        if not fam['decode'].startswith('ERR'):
+            def again_after_modification():
+                first = pyais.decode(*args, error_if_checksum_invalid=strict)
+                for name in list(first.asdict()):
+                    try:
+                        setattr(first, name, None)
+                    except Exception:  # noqa
+                        pass
+                return canon_msg(pyais.decode(*args, error_if_checksum_invalid=strict))
+            fam['decode again after the caller modified the first result'] = _try(again_after_modification)
+        if len(args) > 1 and not strict and not fam['decode'].startswith('ERR'):
+            def peek_then_assemble():
+                sents = [M.NMEASentenceFactory.produce(a) for a in args]
+                ais = [x for x in sents if x.TYPE == 'AIS']
+                for x in ais:
+                    try:
+                        x.decode()              # a look at the fragment on its own (may raise: incomplete)
+                    except Exception:  # noqa
+                        pass
+                return canon_msg(M.AISSentence.assemble_from_iterable(ais).decode())
+            if all(' ais=1 ' in _try(lambda a=a: show_sentence(M.NMEASentenceFactory.produce(a))) for a in args):
+                fam['assemble_from_iterable after each fragment was decoded on its own'] = _try(peek_then_assemble)
         if len(args) == 1 and not strict and not fam['decode'].startswith('ERR'):
             # a single line may be handed to the in-memory reader as it is (bytes, or str through from_strings)
             def one(reader):
@@ -1237,7 +1375,19 @@ def step2(line):
     if cmd == 'tagblock.parse':
         tb = M.TagBlock(unhx(p[1]))
         tb.init()
-        return show_tb(tb)
+        res = show_tb(tb)
+        # what a tag block parses to does not depend on what a caller did to an earlier result
+        try:
+            if tb.group is not None:
+                tb.group.group_id += 100000
+                tb.group.sentence_tot = 9
+        except Exception:  # noqa
+            pass
+        tb2 = M.TagBlock(unhx(p[1]))
+        tb2.init()
+        if show_tb(tb2) != res:
+            return 'RESULT-DEPENDS-ON-EARLIER-RESULT first=%s second=%s' % (res, show_tb(tb2))
+        return res
     if cmd == 'tagblock.create':
         fields = {}
         if p[1] != '-':
@@ -1277,6 +1427,21 @@ def step2(line):
         return canon_msg(getattr(M, p[1]).create(**parse_kw(p[2])))
     if cmd == 'tobits':
         return show_bits(getattr(M, p[1]).create(**parse_kw(p[2])).to_bitarray())
+    if cmd in ('encode_dict', 'encode_msg'):
+        # close relatives first: the same message with its variable-length tail one octet / one character shorter
+        # (an encoder that remembers results under an incomplete key answers the real call from them)
+        try:
+            kw_ = parse_kw(p[3] if cmd == 'encode_dict' else p[4])
+            for name in ('data', 'text', 'name_ext'):
+                if isinstance(kw_.get(name), (bytes, str)) and len(kw_[name]) > 1:
+                    k2_ = dict(kw_)
+                    k2_[name] = kw_[name][:-1]
+                    if cmd == 'encode_dict':
+                        ENC.encode_dict(k2_, talker_id='AIVDM', radio_channel='A')
+                    else:
+                        ENC.encode_msg(getattr(M, p[1]).create(**k2_))
+        except Exception:  # noqa
+            pass
     if cmd == 'encode_dict':
         r = _twice(lambda: ENC.encode_dict(parse_kw(p[3]), talker_id=unhx(p[1]).decode('latin-1'),
                                            radio_channel=unhx(p[2]).decode('latin-1')))
